@@ -242,7 +242,51 @@ def run_comp(case):
     ]
     executed = {(r["kind"], r["seq"]) for r in sched[e] if r["partition"] < N and not (r["kind"] == sup.name and r["seq"] >= N)}
     executed_rows = executed | {(sup.name, k) for k in range(N)}
+    # one extra configuration with a late start: rows of partitions before the start must stay -1
+    if N >= 3:
+        s0 = rnd.randint(1, N - 1)
+        flagsets.append((f"all-late-start-{s0}", {f: True for f in ("params", "rng", "inputs", "state", "output")}))
     for name, fl in flagsets:
+        late = name.startswith("all-late-start")
+        if late:
+            c0_run = G.init(jax.random.PRNGKey(case["spec_seed"]), starting_eps=e, starting_step=s0)
+            if gs0 is not None:
+                c0_run = c0_run.replace(rng=gs0.rng, params=gs0.params, state=gs0.state)
+            roll_l = jax.jit(lambda g: G.rollout(g, max_steps=N - s0))
+            W.trace_clear()
+            o0_l = roll_l(c0_run)
+            jax.block_until_ready(o0_l)
+            jax.effects_barrier()
+            base_l = {(d["idx"], d["seq"]): d for d in W.decode_trace(W.trace_snapshot(), S.input_layout(nodes))}
+            ex_l = {(r["kind"], r["seq"]) for r in sched[e] if s0 <= r["partition"] < N and not (r["kind"] == sup.name and r["seq"] >= N)} | {(sup.name, k) for k in range(s0, N)}
+            try:
+                c1 = G.init_record(c0_run, **fl)
+            except KeyError as ex_:
+                continue
+            W.trace_clear()
+            o1 = roll_l(c1)
+            jax.block_until_ready(o1)
+            jax.effects_barrier()
+            tr = {(d["idx"], d["seq"]): d for d in W.decode_trace(W.trace_snapshot(), S.input_layout(nodes))}
+            V = []
+            st = Counter()
+            d = c09.tree_diff(o0_l.replace(aux=None), o1.replace(aux=None), st)
+            counters["runs_compared"] += 1
+            if d:
+                V.append(dict(clause="recording_changed_final_graph_state", diffs=d, flags=name))
+            if tr != base_l:
+                V.append(dict(clause="recording_changed_what_steps_saw", flags=name))
+            rec = C.npz(o1.aux["record"])
+            flags = {n: {f: True for f in ("rng", "inputs", "state", "output")} for n in nodes}
+            stats = Counter()
+            V += rows_vs_trace(rec, tr, nodes, flags, stats, executed_only=ex_l, sup_name=sup.name, n_sup_exec=N)
+            counters.update(stats)
+            key = f"{dg}/{mode}/{name}"
+            if V:
+                items.append(dict(status="violated", key=key, nontrivial=True, witness=dict(mechanism=V[0]["clause"], violations=V[:4], flags=name, spec=spec, mode=mode, episode=e, starting_step=s0)))
+            else:
+                items.append(dict(status="held", key=key, nontrivial=True))
+            continue
         try:
             c1 = G.init_record(c0, **fl)
         except KeyError as ex_:
